@@ -10,6 +10,7 @@ CONSTANTS
   Rts = {}
   Lbs = {"rr"}
   HostSets = {{"h1"}, {"h1", "h2"}}
+  Attrs = {"a1"}
   LocLists = {"L2"}
   Defects = {}
 SPECIFICATION Spec
